@@ -15,6 +15,7 @@ from nrfsim.core import SimAbort, stream, MS
 from nrfsim.harness import Result
 from nrfsim.mcu import World
 from checks import bleref
+from circuitpython_nrf24l01 import fake_ble
 from circuitpython_nrf24l01.fake_ble import FakeBLE
 from circuitpython_nrf24l01.rf24 import RF24
 
@@ -22,7 +23,8 @@ PROP = "C18"
 LEVEL = "exploration"
 RULE = ("seeded histories of `with` blocks (one or two objects on the chip) containing mac/name/show_pa_level/pa_level/"
         "hop_channel()/channel= assignments (valid and invalid) and advertise() calls with single buffers and chunk "
-        "lists whose total sits around the capacity boundary (-2..+2); thorough adds the complete grid name length "
+        "lists whose total sits around the capacity boundary (-2..+2), the same list object of chunk() results advertised again, a sibling RF24 object "
+        "whose send() to an absent peer fails right before it hands the radio back; thorough adds the complete grid name length "
         "0..20 x show_pa_level x PA level x chunk length. Every on-air payload is decoded by an independent spec-derived "
         "codec for the channel actually tuned. Non-trivial: at least one advertisement was transmitted; distinct = "
         "distinct (history of call names, name length, show_pa_level, chunk lengths)")
@@ -107,6 +109,26 @@ def make(i, base_seed, tier):
         else:
             ops.append(_rand_adv(rng, rng.choice([18, 15, 13, 10, 5, 0, free])))
     ops.append({"op": "exit", "who": inside})
+    xr = stream(seed, "ext")
+    # history: the application advertises the same list object of chunk() results again (repeatedly advertised sensor data)
+    k_ = 0
+    while k_ < len(ops):
+        if ops[k_]["op"] == "advertise" and "chunks" in ops[k_] and len(ops[k_]["chunks"]) >= 2 and xr.random() < 0.6:
+            ops[k_]["keep_list"] = True
+            ops[k_]["tuple"] = False
+            for _ in range(xr.randint(1, 2)):
+                ops.insert(k_ + 1, {"op": "advertise", "chunks": ops[k_]["chunks"], "tuple": False, "reuse_list": True})
+                k_ += 1
+        k_ += 1
+    if scn["second"] == "RF24":
+        # the plain RF24 object sharing the radio sends to a peer that is not there (auto-ack on: all attempts unacknowledged)
+        # right before it hands the radio back
+        k_ = 0
+        while k_ < len(ops):
+            if ops[k_]["op"] == "exit" and ops[k_]["who"] == 1 and xr.random() < 0.7:
+                ops.insert(k_, {"op": "failed_send"})
+                k_ += 1
+            k_ += 1
     scn["ops"] = ops
     return scn
 
@@ -139,6 +161,7 @@ def _run(scn, w, res):
     names = []
     radio.spi_log = []
     nadv = 0
+    kept_list = None
     for op in scn["ops"]:
         o = op["op"]
         names.append(o)
@@ -169,6 +192,11 @@ def _run(scn, w, res):
                     obj.pa_level = op["v"]
                 elif o == "hop_channel":
                     obj.channel = 90
+                elif o == "failed_send":
+                    obj.listen = False
+                    obj.open_tx_pipe(b"\x31\x4e\x6f\x64\x65")
+                    if obj.send(b"hello") is False:
+                        sim.count("sibling_send_failed_before_handover")
             except ValueError:
                 pass
             continue
@@ -212,6 +240,13 @@ def _run(scn, w, res):
                 if "chunks" in op:
                     chunks = [bytes.fromhex(c) for c in op["chunks"]]
                     arg = tuple(chunks) if op.get("tuple") else list(chunks)
+                    if op.get("keep_list"):
+                        # chunk() results (bytearrays) in a list the application keeps
+                        arg = [fake_ble.chunk(c[2:], c[1]) for c in chunks]
+                        kept_list = arg
+                    elif op.get("reuse_list") and kept_list is not None:
+                        arg = kept_list
+                        sim.count("chunk_list_advertised_again")
                     body = b"".join(chunks)
                     args = (arg,)
                 else:
